@@ -112,4 +112,54 @@ def _confusable_literals(ctx):
                     ctx.violation("strict-rejects-listed-literal:bool-int", f"strict {node.src} rejected {vals!r} although every item is a listed (type, value) member [{dt.name}]: {out!r:.200}", {"type": node.src})
 
 
-DIRECTED = {"scalar-table-x-pool": _table, "confusable-literals-in-one-type": _confusable_literals}
+def _confusable_literals_one_by_one(ctx):
+    """The same spellings, every literal type on its own loader (all obtained from ONE retort per mode) and every confusable datum alone:
+    a wrongly ACCEPTED datum is not masked by a neighbour that is rightly rejected (seeded change: type and value were checked independently,
+    Literal[0, True] took False)."""
+    sets = [(0, 1), (False, True), (0, True), (False, 1), (1, 0), (True, False), ("x", 0, True), ("x", False, True), (1, False, 2, 3, 4, 5), (True, 0, 2, 3, 4, 5), (0, True, "a", "b", "c", "d", "e")]
+    data = [0, False, 1, True, "x", 2, 1.0, 0.0]
+    for order in (sets, list(reversed(sets))):
+        for dt in DEBUG_MODES:
+            retort = make_retort(dt, True)
+            for m in order:
+                node = spec.LiteralT(m)
+                ld = attempt(retort.get_loader, node.hint)
+                if ld.kind != "ok":
+                    ctx.violation("no-loader:Literal", f"{node.src}: {ld.exc!r}", {})
+                    continue
+                for d in data:
+                    out, v = attempt(ld.value, d), node.accept(d, True)
+                    ctx.evaluated(("confusable-literal-alone", repr(m), repr(d), dt.name, order is sets))
+                    ctx.count("pairs")
+                    if out.kind == "ok" and v.k == spec.R:
+                        ctx.violation("strict-origin-outside-table:Literal:bool-int", f"strict {node.src} accepted {d!r} ({type(d).__name__}) -> {out.value!r}: no listed member has that type AND value [{dt.name}]",
+                                      {"type": node.src, "datum": repr(d)})
+                    elif out.kind != "ok" and v.k == spec.A:
+                        ctx.violation("strict-rejects-listed-literal:bool-int", f"strict {node.src} rejected its own member {d!r} ({type(d).__name__}) [{dt.name}]: {out!r:.150}", {"type": node.src})
+
+
+def _modes_of_clones(ctx):
+    """'The otherwise identical retort with strict_coercion=False' is usually obtained by replace(): whatever the original has served
+    before, the clone applies ITS coercion mode (seeded change: clones shared the loader cache of the original)."""
+    from adaptix import Retort  # noqa: PLC0415
+
+    probes = [(int, "12", 12), (float, "1.5", 1.5), (spec.IterT("List", spec.IntT()).hint, ["1"], [1]), (bool, 1, True)]
+    for dt in DEBUG_MODES:
+        for tp, lax_only_datum, lax_value in probes:
+            for first in ("lax", "strict"):
+                base = Retort(debug_trail=dt, strict_coercion=first == "strict")
+                warm = attempt(base.load, lax_only_datum, tp)
+                clone = base.replace(strict_coercion=first != "strict")
+                out = attempt(clone.load, lax_only_datum, tp)
+                back = attempt(clone.replace(strict_coercion=first == "strict").load, lax_only_datum, tp)
+                ctx.evaluated(("modes-of-clones", repr(tp), first, dt.name))
+                ctx.count("pairs")
+                want_clone_ok = first == "strict"      # the clone of a strict retort is lax: it accepts the lax-only datum
+                if (out.kind == "ok") != want_clone_ok or (out.kind == "ok" and out.value != lax_value):
+                    ctx.violation("clone-keeps-coercion-mode-of-the-original", f"{first} retort served {lax_only_datum!r} for {tp!r} ({warm!r:.60}), its replace(strict_coercion={first != 'strict'}) "
+                                  f"clone gives {out!r:.100}", {"type": repr(tp), "first": first, "mode": dt.name})
+                if (back.kind == "ok") != (warm.kind == "ok"):
+                    ctx.violation("clone-keeps-coercion-mode-of-the-original", f"{first} -> clone -> clone back: {warm!r:.60} vs {back!r:.60}", {"type": repr(tp)})
+
+
+DIRECTED = {"coercion-mode-of-clones": _modes_of_clones, "scalar-table-x-pool": _table, "confusable-literals-in-one-type": _confusable_literals, "confusable-literals-one-by-one": _confusable_literals_one_by_one}
